@@ -21,25 +21,41 @@ PROPS = {
     },
     "C14": {
         "level": "proof",
-        "verus": ["schema_rules", "types"],
-        "explanation": "KERNEL ONLY: two of the type-system validation rules, decided against the specification text rather than against a reference implementation. Verus proves for every input that "
+        "verus": ["schema_rules", "types", "impl_args"],
+        "explanation": "KERNEL ONLY: three of the type-system validation rules, decided against the specification text rather than against a reference implementation. Verus proves for every input that "
                        "validate_type_system_name reports exactly the names that start with `__` outside the built-in file (rule 'Reserved Names'), and that validate_implementation_field_types reports exactly the "
                        "interface fields whose implementing field type is not a valid implementation type (rule IsValidImplementationFieldType over the schema's subtype relation, any nesting of list / non-null), "
-                       "once each and in order. Bodies are re-extracted from /repo on every run.",
-        "assumptions": ["IndexMap / IndexSet / HashMap / HashSet shims; Schema::is_subtype is the schema's subtype relation"],
+                       "once each and in order. Unit impl_args: validate_implementation_field_arguments appends exactly the reports IsValidImplementation 2.c / 2.d owe, in order -- an interface field argument missing on the implementing field, "
+                       "present with a type that is not THE SAME type (invariant: `ID!` vs `ID` is reported), an additional argument that is required (non-null without default) -- for every schema, implementor and list of interfaces. "
+                       "Bodies are re-extracted from /repo on every run.",
+        "assumptions": ["IndexMap / IndexSet / HashMap / HashSet shims; Schema::is_subtype is the schema's subtype relation; `.iter().find / any` by name are first-match searches; derived PartialEq of ast::Type is structural equality"],
         "not_decided": ["the property as stated: agreement of the WHOLE of schema validation with the reference implementation (graphql-js via graphql-core) -- every other rule (root operation types, field / argument / "
-                        "directive definitions, unions, enums, input objects, interface argument contracts, transitive interfaces, cycles) and the documented differences; no oracle exists inside a contract"],
+                        "directive definitions, unions, enums, input objects, transitive interfaces, input-object cycles) and the documented differences; no oracle exists inside a contract"],
     },
     "C15": {
         "level": "proof",
-        "verus": ["schema_rules", "types"],
-        "explanation": "KERNEL ONLY: three of the mechanisms behind 'acceptance implies these invariants'. Verus proves for every input: validate_type_system_name reports a name exactly when it starts with `__` and "
+        "verus": ["schema_rules", "types", "impl_args"],
+        "explanation": "KERNEL ONLY: five of the mechanisms behind 'acceptance implies these invariants'. Verus proves for every input: validate_type_system_name reports a name exactly when it starts with `__` and "
                        "is not located in the built-in file (Reserved Names); BuiltInScalars::record_type_ref says whether a name is a built-in scalar and records it as used-and-defined / used-and-undefined "
                        "according to the schema's type map, all_used compares the counts (the bookkeeping that decides which built-in scalars stay in a valid schema's type map); validate_implementation_field_types "
-                       "reports exactly one diagnostic, in order, for every implemented-interface field whose type the implementor's field does not satisfy (IsValidImplementationFieldType), none skipped.",
-        "assumptions": ["HashMap / HashSet / IndexMap / IndexSet behave as maps / sets / sequences keyed by the name's text (shims)", "Schema::is_subtype is the schema's subtype relation"],
+                       "reports exactly one diagnostic, in order, for every implemented-interface field whose type the implementor's field does not satisfy (IsValidImplementationFieldType), none skipped; validate_implementation_field_arguments (unit impl_args) does the same for the argument contract (missing argument, argument of a different type, additional required argument). "
+                       "validate_schema itself: its effect on the type map is `types_after` -- every definition stays except built-in scalar definitions nothing refers to; a built-in scalar that is referred to but not defined is inserted "
+                       "as the table's definition -- including that the `all_used` shortcut is harmless (set cardinalities) and that every used-and-undefined name is inserted.",
+        "assumptions": ["HashMap / HashSet / IndexMap / IndexSet behave as maps / sets / sequences keyed by the name's text (shims); retain keeps exactly the entries its closure accepts", "Schema::is_subtype is the schema's subtype relation",
+                        "the per-definition validators called by validate_schema are opaque; assumed of each: it calls record_type_ref for exactly the type references of the definition it is given, and leaves the table alone"],
         "not_decided": ["the property's main clause: that ACCEPTANCE by the whole of validate_schema implies every listed invariant (root types, referenced types exist with the right kind, argument contracts, "
-                        "transitive interfaces, input-object cycles): would need contracts on every validator and on validate_schema's retain / insert of built-in scalars (closures over hash collections)"],
+                        "transitive interfaces, input-object cycles): would need contracts on every validator"],
+    },
+    "C16": {
+        "level": "proof",
+        "verus": ["schema_rules"],
+        "explanation": "KERNEL ONLY. Verus proves on the extracted validate_schema that its effect on the type map is the function `types_after` of the map before and of the set of type names the schema refers to: every definition "
+                       "stays except built-in scalar definitions that nothing refers to, and a built-in scalar that is referred to but missing is inserted as the table's definition (so: 'if a field referencing a previously removed "
+                       "built-in scalar is added, re-validation restores exactly that scalar' -- lemma_referenced_scalar_is_restored). lemma_revalidation_is_identity: applied to its own result, with unchanged references, types_after "
+                       "changes nothing ('leaves it identical, including which built-in scalars are present').",
+        "assumptions": ["as for C15 (opaque validators that record exactly the definition's type references; collection shims)",
+                        "that removing unreferenced built-in scalar definitions / inserting referenced ones does not change the set of type names the schema refers to (scalar definitions contain no type references): premise of the identity lemma, not proved"],
+        "not_decided": ["that re-validation SUCCEEDS (reports nothing): every validator would need a contract", "re-validation of executable documents", "that Valid<Schema>::into_inner / validate hand the same schema through unchanged"],
     },
     "C17": {
         "level": "proof",
